@@ -2096,3 +2096,29 @@ Proof.
   split; [now apply (send_to_children_dead_child msgs o p)|]. split; [now apply (multicast_reports_dead_peer msgs o p)|].
   split; [intros Hne; now apply (broadcast_reports_dead_peer msgs o p)|]. auto.
 Qed.
+
+(* ---- a silently dead peer is noticed within one time-out -------------------------------------------------- *)
+
+(* the code that arms the deadline before the header read: every Receive on a silent connection returns
+   ErrTimeout at most one time-out after it started, whatever the connection has seen before; handleConn
+   classifies ErrTimeout as unrecoverable, so (table_clean) the handlers are told and the entry leaves *)
+Theorem silent_peer_detected now timeout leftover :
+  exists t, receive_silent true now timeout leftover = Some t /\ t <= now + timeout /\ classify ETimeout = Drop.
+Proof. exists (now + timeout). repeat split; auto. Qed.
+
+(* the variant that arms it only before body reads: on a connection that received a frame at t0 <= now the
+   left-over deadline still ends the wait within one time-out of [now] (which is why that variant passes
+   every test with traffic) ... *)
+Theorem leftover_deadline_covers now timeout t0 :
+  t0 <= now ->
+  exists t, receive_silent false now timeout (after_body t0 timeout) = Some t /\ t <= now + timeout.
+Proof. intros H. eexists. split; [reflexivity|]. cbn. lia. Qed.
+
+(* ... but on a fresh connection the Receive never returns: the dead peer is never noticed *)
+Theorem silent_peer_undetected_refuted : forall now timeout, receive_silent false now timeout None = None.
+Proof. reflexivity. Qed.
+
+Theorem mute_detected_spec :
+  mute_detected true true = true /\ mute_detected true false = true /\
+  mute_detected false false = true /\ mute_detected false true = false.
+Proof. repeat split. Qed.
